@@ -670,6 +670,15 @@ RUN_FAMILIES = [
     ("│", ("top", "bottom"), [("c", "w", False)]),
     ("╱", ("top_right", "bottom_left"), [("u", "e", False)]),
     ("╲", ("top_left", "bottom_right"), [("a", "y", False)]),
+    # second session: the remaining single-segment line characters of the unicode table
+    ("–", ("left", "right"), [("k", "o", False)]),
+    ("—", ("left", "right"), [("k", "o", False)]),
+    ("┄", ("left", "right"), [("k", "o", True)]),
+    ("╎", ("top", "bottom"), [("c", "w", True)]),
+    ("┊", ("top", "bottom"), [("c", "w", True)]),
+    ("┆", ("top", "bottom"), [("c", "w", True)]),
+    ("‾", ("left", "right"), [("a", "e", False)]),
+    ("¯", ("left", "right"), [("a", "e", False)]),
 ]
 # run characters that are a line only when connected to another of their kind
 NEEDS_PARTNER = {":", "!"}
